@@ -9,16 +9,16 @@ CONSTANTS
   d1 = "d1"
   l1 = "l1"
   l2 = "l2"
-  Call = {"c1", "c2", "d1"}
-  LCall = {"l1", "l2"}
+  Call = {"c1", "d1"}
+  LCall = {"l1"}
   CallDef <- MCCallDef
   LDef <- MCLDef
   PeerOrder <- MCPeerOrder
   None = "None"
   MaxSeq = 2
   MaxStim <- MCMaxStim
-  Cats = {"conn", "flow", "odd", "gate"}
-  MaxOdd = 2
+  Cats = {"conn", "gate"}
+  MaxOdd = 0
   BugPtr = FALSE
   BugWait = FALSE
   BugListen = FALSE
